@@ -1075,6 +1075,18 @@ func (env *SpecEnv) evalCall(x *SExpr) *Val {
 				return mathInt(v.S[1])
 			}
 			return mathInt(v.term())
+		case "as":
+			// as(T, x): the dynamic value of interface x viewed as a value of pointer type T
+			t := e.w.resolveType(env.pkg, args[0].String())
+			if t == nil || !isPointer(t) {
+				env.fail("as(T, x) needs a pointer type, got %s", args[0])
+			}
+			v := env.eval(args[1])
+			a := v.S[0]
+			if v.K == KIface {
+				a = v.S[1]
+			}
+			return &Val{T: t, K: KInt, S: []string{a}}
 		case "typeof":
 			v := env.eval(args[0])
 			if v.K != KIface {
